@@ -126,11 +126,11 @@ func ClassValues(m string) []interface{} {
 	case "Float32":
 		return []interface{}{float32(0), float32(math.Copysign(0, -1)), float32(1.5), float32(math.NaN()), float32(math.Inf(1)), float32(math.Inf(-1)), float32(1e-7), float32(1e21), float32(math.MaxFloat32), float32(math.SmallestNonzeroFloat32), float32(0.1)}
 	case "Float64":
-		return []interface{}{0.0, math.Copysign(0, -1), 1.5, math.NaN(), math.Inf(1), math.Inf(-1), 1e-7, 1e21, 9.999999999999999e20, 1e-6, math.MaxFloat64, math.SmallestNonzeroFloat64, 0.1}
+		return []interface{}{0.0, math.Copysign(0, -1), 1.5, math.NaN(), math.Inf(1), math.Inf(-1), 1e-7, 1e21, 9.999999999999999e20, 1e-6, math.MaxFloat64, math.SmallestNonzeroFloat64, 0.1, float64(float32(0.1)), float64(math.MaxFloat32), 16777217.0}
 	case "Floats32":
 		return []interface{}{[]float32(nil), []float32{}, []float32{float32(math.NaN()), 1.5}, []float32{1e-7, 1e21}}
 	case "Floats64":
-		return []interface{}{[]float64(nil), []float64{}, []float64{math.NaN(), math.Inf(-1)}, []float64{1e-7, 1e21, 0.1}}
+		return []interface{}{[]float64(nil), []float64{}, []float64{math.NaN(), math.Inf(-1)}, []float64{1e-7, 1e21, 0.1, float64(float32(0.1))}}
 	case "Time":
 		return []interface{}{T0, TEp, TFix, TNeg}
 	case "Times":
